@@ -191,7 +191,16 @@ def post_from_geopolygon(args, kw, res, exc, snap):
     elif isinstance(p["shape"], tuple) or (p["shape"] is not None and not isinstance(p["shape"], (int, float))):
         judge_shape("GeoBox.from_geopolygon", region, tuple(shape_(p["shape"])), anchor_xy, res, wit, ("cross-crs|" if cross else "same-crs|") + "shape", hsig("fgs", region, repr(p["shape"])))
     else:
-        _mon.skip("GeoBox.from_geopolygon", "int shape (judged at from_bbox)")
+        # a single number: that many pixels along the longer side of the region *in the grid's CRS* (square pixels); judged here as well as at from_bbox, so that a
+        # detour that never reaches from_bbox with the number is seen.  The region is the oracle's projection of the polygon: 2 % allowance, one pixel for snapping
+        n = int(p["shape"])
+        sx, sy = region[2] - region[0], region[3] - region[1]
+        A = res.affine
+        want_px = max(sx, sy) / n if n > 0 else float("nan")
+        snapping = anchor_xy is not None
+        ok = n > 0 and max(res.shape) in ((n, n + 1) if snapping else (n,)) and abs(abs(A.a) - want_px) <= 0.02 * want_px and abs(abs(A.e) - want_px) <= 0.02 * want_px and A.b == 0 and A.d == 0
+        _mon.check(bool(ok), "GeoBox.from_geopolygon", lambda: wit({"why": "single-number shape: longest side / pixel size", "shape_got": list(res.shape), "pixel": [A.a, A.e], "expected_pixel": want_px}),
+                   key="c08-int-shape", cls=("cross-crs|" if cross else "same-crs|") + "int-shape", sig=hsig("fgi", region, n, cross))
 
 
 def post_zoom_to(args, kw, res, exc, snap):
@@ -325,6 +334,10 @@ def drive_cross(mon: Monitor, rng: random.Random, n: int) -> None:
                 pn = poly.to_crs(entry[0])
                 GeoBox.from_geopolygon(pn, ext / rng.choice([16, 40]), crs="EPSG:4326", anchor=rng.choice(["edge", "center"]))
             g.to_crs(rng.choice(["EPSG:4326", "EPSG:3857", "EPSG:6933"]), tight=rng.random() < 0.3)
+            # shape requests across CRSs: both forms of `shape=`
+            GeoBox.from_geopolygon(poly, shape=rng.choice([rng.randint(20, 300), (rng.randint(10, 200), rng.randint(10, 200))]), crs=entry[0], anchor=rng.choice(["edge", "floating", "center"]))
+            if rng.random() < 0.4:
+                GeoBox.from_geopolygon(poly.to_crs(entry[0]), shape=rng.randint(20, 300), crs="EPSG:4326")
         except Exception:
             pass
     mon.notes["indirect_calls"] = {k: calls[k] - before.get(k, 0) for k in calls}
